@@ -2798,7 +2798,13 @@ class Parameters:
         params = {name: param_values[name] for name in param_names}
         self_._TRIGGER = True
         try:
-            self_.update(dict(params, **triggers))
+            if self_.self is None:
+                self_.update(dict(params, **triggers))
+            else:
+                # re-assigning the current values must not be mistaken for
+                # an override of the parameters that are linked to a reference
+                with _syncing(self_.self, param_names):
+                    self_.update(dict(params, **triggers))
         finally:
             self_._TRIGGER = False
             self_._events += events
